@@ -56,7 +56,7 @@ fn bounds(tier: Tier) -> Bounds {
         Bounds {
             lat,
             sigma_struct: 9,
-            sigma_other: 12,
+            sigma_other: 14,
             sigma_vec: 10,
             big,
             pair_lat: 12,
@@ -84,7 +84,7 @@ fn bounds(tier: Tier) -> Bounds {
             vec_pair: 8,
             softmax_len: 5,
             var_n: 9,
-            e2_depth: (4, 4),
+            e2_depth: (4, 3),
             e2_signs: vec![2],
             e2_stack_limit: 12,
         }
@@ -114,7 +114,11 @@ impl Harness for C03 {
         // vectors first (cheapest), then one-operand matrix groups, pairs, softmax, variance
         for w in WIDTHS {
             for n in 1..=b.vec_n {
-                jobs.push(Job::new(format!("vec-{}-n{}", w, n), json!({"kind": "vec", "w": w, "n": n, "fills": "full", "sigma": b.sigma_vec})));
+                let shards = if n > 9 && n <= b.sigma_vec { 16 } else { 1 };
+                for k in 0..shards {
+                    let name = if shards > 1 { format!("vec-{}-n{}-shard{}", w, n, k) } else { format!("vec-{}-n{}", w, n) };
+                    jobs.push(Job::new(name, json!({"kind": "vec", "w": w, "n": n, "fills": "full", "sigma": b.sigma_vec, "shard": k, "shards": shards})));
+                }
             }
             for n in &b.vec_big {
                 jobs.push(Job::new(format!("vec-{}-n{}", w, n), json!({"kind": "vec", "w": w, "n": n, "fills": "lite"})));
@@ -174,32 +178,32 @@ impl Harness for C03 {
             budget_s: if t { 2400 } else { 40 },
             case_deadline_ms: 20_000,
             floors: vec![
-                ("incompatible_rejected", if t { 100_000 } else { 10_000 }),
-                ("reshape_compatible", 1_000),
-                ("transpose_nonsquare", 500),
-                ("slice_proper", 10_000),
-                ("take_with_repeats", 10_000),
-                ("argmax_tie", 1_000),
-                ("unique_with_duplicates", 1_000),
-                ("reduce_all_negative", 50),
-                ("binary_compatible", 500),
-                ("product_compatible", 1_000),
-                ("product_nonsquare", 1_000),
-                ("stack_compatible", 500),
-                ("dot_vectors", 100),
-                ("dot_row_against_column", 20),
-                ("equality_incompatible", 1_000),
-                ("equal_operands", 50),
-                ("softmax_small_range", 100),
-                ("softmax_negative_dominant", 1_000),
-                ("softmax_positive_dominant", 1_000),
-                ("var_spread_clause_applied", 10_000),
-                ("var_spread_clause_large_offset", 5_000),
-                ("var_lane_large_offset", 5_000),
-                ("e2_state_1x1", 10),
-                ("e2_state_1xN", 100),
-                ("e2_state_Nx1", 100),
-                ("e2_state_nonsquare", 100),
+                ("incompatible_rejected", 1_000_000),
+                ("reshape_compatible", 20_000),
+                ("transpose_nonsquare", 4_000),
+                ("slice_proper", 300_000),
+                ("take_with_repeats", 400_000),
+                ("argmax_tie", 50_000),
+                ("unique_with_duplicates", 50_000),
+                ("reduce_all_negative", 200),
+                ("binary_compatible", 3_000),
+                ("product_compatible", 30_000),
+                ("product_nonsquare", 30_000),
+                ("stack_compatible", 10_000),
+                ("dot_vectors", 200),
+                ("dot_row_against_column", 200),
+                ("equality_incompatible", 50_000),
+                ("equal_operands", 200),
+                ("softmax_small_range", 800),
+                ("softmax_negative_dominant", 50_000),
+                ("softmax_positive_dominant", 80_000),
+                ("var_spread_clause_applied", 1_000_000),
+                ("var_spread_clause_large_offset", 500_000),
+                ("var_lane_large_offset", 1_000_000),
+                ("e2_state_1x1", 300),
+                ("e2_state_1xN", 10_000),
+                ("e2_state_Nx1", 10_000),
+                ("e2_state_nonsquare", 20_000),
             ],
             bounds: json!({
                 "widths": "f64 and f32",
@@ -241,9 +245,15 @@ impl Harness for C03 {
         if std::env::var("C03_E2_TIMING").is_ok() {
             eprintln!("[e2] f64: {} states {} transitions {:.1}s; f32: {} states {:.1}s", r64.states, r64.transitions, t1, r32.states, t0.elapsed().as_secs_f64() - t1);
         }
-        // determinism of the transition function: a second search must find the same graph
-        let again = mc::bfs::search("dense-matrix-chains-f32", &m32, b.e2_depth.1, cap);
-        assert_eq!((again.states, again.transitions), (r32.states, r32.transitions), "E2 search is not deterministic");
+        // determinism of the transition function: repeated searches (depth <= 4) must find the same graph
+        let dd = b.e2_depth.1.min(4);
+        let a1 = mc::bfs::search("dense-matrix-chains-f32", &m32, dd, cap);
+        if dd == b.e2_depth.1 {
+            assert_eq!((a1.states, a1.transitions), (r32.states, r32.transitions), "E2 search is not deterministic");
+        } else {
+            let a2 = mc::bfs::search("dense-matrix-chains-f32", &m32, dd, cap);
+            assert_eq!((a1.states, a1.transitions), (a2.states, a2.transitions), "E2 search is not deterministic");
+        }
         vec![r64, r32]
     }
 
@@ -284,7 +294,10 @@ fn run_t<T: model::W>(job: &Job, seed: u64) {
             unary::run::<T>(job.s("group"), job.u("r"), job.u("c"), fills_of(job), shard, seed)
         }
         "binary" => binary::run::<T>(job.u("r"), job.u("c"), &pair_shapes(&b), seed),
-        "vec" => vector::run_unary::<T>(job.u("n"), fills_of(job), seed),
+        "vec" => {
+            let shard = (job.params["shard"].as_u64().unwrap_or(0) as usize, job.params["shards"].as_u64().unwrap_or(1) as usize);
+            vector::run_unary::<T>(job.u("n"), fills_of(job), shard, seed)
+        }
         "vecpair" => vector::run_binary::<T>(job.u("n"), b.vec_pair, seed),
         "softmax" => special::softmax::<T>(job.u("len"), job.u("orient"), seed),
         "variance" => special::variance::<T>(job.s("vkind"), job.u("n")),
